@@ -5,13 +5,15 @@ import random, re
 from common import *
 import runner
 from props.parts import _tracksv2_gen as G
+from props.parts import _convertv2 as CV
 
-LEAN_MODULES = ["Properties.C01V2"]
+LEAN_MODULES = ["Properties.C01V2", CV.LEAN_MODULE]
 THEOREMS = ["EngineModel.Properties.C01V2." + t for t in [
     "v2_C01_roundtrip", "v2_C01_reject", "v2_C01_total", "v2_C01_fixed_point", "v2_C01_second_write",
     "v2_C01_representable", "v2_C01_db_create", "v2_C01_db_update", "v2_C01_db_reject",
     "v2_C01_table_create", "v2_C01_table_update", "v2_C01_table_second_write",
-    "v2_C01_schema_create", "v2_C01_schema_update", "v2_C01_schema_matters"]]
+    "v2_C01_schema_create", "v2_C01_schema_update", "v2_C01_schema_matters"]] + CV.THEOREMS_C01
+TRANSLATORS = CV.TRANSLATORS
 ASSUMPTIONS = [
     "2.x: the Track table is modelled as a store of track_row values (tablePut: whole-second time stamps, SQL REAL "
     "for bpmAnalyzed, one-byte label prefix of the cue/loop blobs, UNIQUE(path)); the table layer itself is C18's "
@@ -19,6 +21,7 @@ ASSUMPTIONS = [
     "2.x: std::vector sizes are below 2^53 (w.size() * (2i+1) does not wrap)",
     "2.x: (double) of a 64-bit integer and the division producing samples-per-point are abstract in the theorems "
     "(their results never reach a snapshot) and hardware floats in the driver",
+    CV.ASSUMPTION,
 ]
 MANIFEST_TEXT = ("Schema 2.x: for all seven versions and every snapshot, writeSnap/tablePut/readSnap (mirror of "
                  "snapshot_to_row, the row store and snapshot()) returns exactly Spec.normalize, rejects exactly the "
@@ -28,7 +31,8 @@ MANIFEST_TEXT = ("Schema 2.x: for all seven versions and every snapshot, writeSn
                  "tablePut is proved equal to get∘add / get∘update of C18's table model instantiated with the column lists "
                  "regenerated from track_table.cpp; tied by differential replay of generated snapshots (snap + raw Track row + rewrite of the "
                  "read-back) with the Spec evaluated on the real library's answers.")
-TRUSTED_EXTRA = []
+MANIFEST_TEXT = MANIFEST_TEXT + " " + CV.MANIFEST_SENTENCE
+TRUSTED_EXTRA = [CV.TRUSTED]
 
 
 def _case_script(c):
@@ -253,7 +257,11 @@ def tie(ctx):
             viol("fixed-point", "writing the read-back snapshot again was not accepted (%s)" % ho[-3], body)
         elif ho[-2] != y:
             viol("fixed-point", "the read-back snapshot is not a fixed point of write/read", body)
-    n_lines = sum(len(r[0]) for r in res1 if r) + sum(len(r[0]) for r in res2 if r) + len(spec_lines)
+    # the conversions regenerated from convert_*.hpp, executed against the real convert:: functions
+    cvs = CV.gen_stream(ctx)
+    divergences += cvs["divergences"]
+    hist["regenerated_convert_vs_impl"] = cvs["hist"]
+    n_lines = sum(len(r[0]) for r in res1 if r) + sum(len(r[0]) for r in res2 if r) + len(spec_lines) + cvs["lines"]
     return {
         "ok": not divergences and not violations,
         "evaluations": n_lines,
@@ -265,7 +273,9 @@ def tie(ctx):
                 "count/rate absent with a waveform present) × {create_track, update over a prior snapshot, create with a "
                 "path already taken} × 7 schemas, mem and disk; per case: write outcome, snapshot(), decoded raw Track row "
                 "vs Model; Spec.normalize on the input vs the real snapshot; rewrite of the real read-back snapshot. "
-                "non-trivial = distinct accepted (schema, snapshot)",
+                "non-trivial = distinct accepted (schema, snapshot); + cv.*: every regenerated convert::read / write function "
+                "on boundary and random arguments (ints at the clamp / overflow edges, doubles around ±2^63, NaN, ±inf, ±0, "
+                "0..11 cue / loop slots) against the real function, answers compared as text",
         "samples": [res1[0][0][1][:300] if res1 and res1[0] else "", res1[-1][0][-3][:300] if res1 and res1[-1] else ""],
         "histograms": hist,
         "divergences": divergences[:20],
